@@ -399,7 +399,7 @@ def worker(job):
             res, storm = run_batched(v["exe"], [with_force(full[i], f) for i in red_idx])
             judge_run(part, v, vname, f, red_tpls, res, storm)
     part["counters"]["templates"] = len(tpls)
-    return part
+    return c04.compact(part)
 
 
 RULE = (
